@@ -87,12 +87,13 @@ def make_history(rng, nobj):
     return h
 
 def run_history(args):
-    seed, nobj, history, probe = args
+    seed, nobj, history, probe = args[:4]
+    prefix = args[4] if len(args) > 4 else ''      # the eId prefix every object of the history is created with
     import random
     from bluebell.parser import AkomaNtosoParser
     from cobalt import FrbrUri
     from lxml import etree
-    objs = [AkomaNtosoParser(FrbrUri.parse(URI), '') for _ in range(nobj)]
+    objs = [AkomaNtosoParser(FrbrUri.parse(URI), prefix) for _ in range(nobj)]
     import sys
     sys.setrecursionlimit(1000)          # the interpreter's stock limit, as in a caller's fresh process (the stages raise it for their own runs)
     before = snapshot()
@@ -127,7 +128,7 @@ def run_history(args):
         between = [('hier_element', 'SEC 2. - Other\n\n  Just a fragment.\n'), ('act', 'SEC 3\n  x\n'), ('hier_element', '{{')]
         random.Random(seed).shuffle(between)
         got = [impl.e2e_with(p, root, text, split=(None, between)) for p in objs] + [impl.e2e_with(objs[0], root, text, split=(objs[-1], between[:1]))]
-    want = impl.e2e_sx((URI, root, '', text))
+    want = impl.e2e_sx((URI, root, prefix, text))
     bad = None
     for i, g in enumerate(got):
         if g != want:
@@ -178,18 +179,23 @@ def search(ctx, budget):
                     ctx.rng.shuffle(calls)
                     pos = ctx.rng.choice([len(h), len(h), ctx.rng.randint(0, len(h))])
                     h[pos:pos] = calls
-        jobs.append((ctx.rng.randrange(1 << 30), nobj, h, probe))
+        # the objects' eId prefix (a constructor argument: part of "a given prefix"), and probes of fragment roots, whose ids start with it
+        prefix = ctx.rng.choice(['', '', 'chp_1', 'a__b', 'part_A__chp_2'])
+        if ctx.rng.random() < 0.2:
+            probe = ctx.rng.choice([('hier_element', 'SEC 1. - Title\n  SUBSEC (a)\n    First.\n'), ('block_element', 'TABLE\n  TR\n    TC\n      x {{FOOTNOTE 1}}\n'),
+                                    ('hier_element', 'PART A\n  SEC 1\n    x\n  SEC 1\n    y\n'), ('attachment', 'SCHEDULE - One\n  PARA 1.\n    x\n')])
+        jobs.append((ctx.rng.randrange(1 << 30), nobj, h, probe, prefix))
     res = impl.pmap(run_history, jobs, chunk=8)
     # the reference for every probe is also computed by the extracted model, which has no state at all: a "fresh object" of the same
     # process is no reference when the state that leaks is at module level
-    ref = [stages.norm_model_xml(y) for y in model.run([['e2e', URI, j[3][0], '', j[3][1]] for j in jobs])]
+    ref = [stages.norm_model_xml(y) for y in model.run([['e2e', URI, j[3][0], j[4], j[3][1]] for j in jobs])]
     for j, r, want in zip(jobs, res, ref):
         ctx.evaluations += 1; ctx.count('histories'); ctx.count('raising_calls', r[1])
         bad = r[0]
         if not bad and any(g != want for g in r[3]):
             bad = 'probe after the history differs from the history-free reference (the extracted model)'
         if bad:
-            ctx.failures.append(({'stage': 'obj', 'seed': j[0], 'objects': j[1], 'history': j[2], 'probe': j[3]}, bad))
+            ctx.failures.append(({'stage': 'obj', 'seed': j[0], 'objects': j[1], 'history': j[2], 'probe': j[3], 'prefix': j[4]}, bad))
         elif r[1] >= 1 and r[2]:
             ctx.nontrivial(repr(j[2:]))
     if not ctx.quick or budget > 1:
@@ -199,7 +205,7 @@ def search(ctx, budget):
         for j, r in zip(tj, impl.pmap(run_threads, tj, chunk=4)):
             ctx.evaluations += 1; ctx.count('thread_runs')
             if r: ctx.failures.append(({'stage': 'threads', 'seed': j[0], 'jobs': j[1]}, r))
-    ctx.sample({'objects': jobs[0][1], 'history': [list(map(str, c))[:3] for c in jobs[0][2]], 'probe': jobs[0][3]})
+    ctx.sample({'objects': jobs[0][1], 'prefix': jobs[0][4], 'history': [list(map(str, c))[:3] for c in jobs[0][2]], 'probe': jobs[0][3]})
 
 def probe_disagreement(ctx, stage, case):
     pass
@@ -211,8 +217,8 @@ def replay(obj):
     if not case:
         print('nothing to replay:', obj.get('broken_obligations')); return 1
     if case.get('stage') == 'obj':
-        r = run_history((case['seed'], case['objects'], [tuple(c) for c in case['history']], tuple(case['probe'])))
-        want = stages.norm_model_xml(model.run([['e2e', URI, case['probe'][0], '', case['probe'][1]]])[0])
+        r = run_history((case['seed'], case['objects'], [tuple(c) for c in case['history']], tuple(case['probe']), case.get('prefix', '')))
+        want = stages.norm_model_xml(model.run([['e2e', URI, case['probe'][0], case.get('prefix', ''), case['probe'][1]]])[0])
         differs = any(g != want for g in r[3])
         print(r[:3], 'differs from the model:', differs); return 1 if (r[0] or differs) else 0
     if case.get('stage') == 'threads':
